@@ -12,7 +12,9 @@
     appended singly and as lists with nil entries in any position (nils are skipped, the
     rest retained; an all-nil list ends nothing).
 (T) free-running storms of 2-64 goroutines with start/end events of every call are
-    validated by Trace_ScopeSignal.tla."""
+    validated by Trace_ScopeSignal.tla; the "errors" observations alternate between the list
+    accessor (Errors) and the cumulative one (Err: the leaves beneath its wrappers), so a
+    cumulative error that stops growing after its first use is rejected."""
 import json
 import vlib
 
